@@ -13,6 +13,13 @@ CLAIMED["C04"] = ("Deductive proof, for every (capacity, front, back) combinatio
          "Trusted: gvc and its model of slices (make/copy/append/slicing), SMT solvers. Assumed: int arithmetic does not overflow (capacities < 2^62), allocation succeeds. The composition of the per-call contracts into whole histories is the standard induction over the representation invariant wf (initial state proved by a ghost client).",
          "4.4", CLAIMED["C06"][3])
 
+CLAIMED["C05"] = ("Deductive proof of internal/heap and xheap.Heap: percolateUp/percolateDown loop invariants (heap order with one excepted edge), heapify, Push/Pop/Peek/RemoveAt/UpdateAt re-establish the heap order for every array and every strict weak order `less` (uninterpreted), the array stays a permutation of (old items +/- the item) via a ghost bijection, Len arithmetic, min-at-root by an induction lemma, so Pop/Peek return an item no held item is less than and draining is sorted (ghost client); notifications keep a ghost key->index map exact when keys are distinct.",
+         "Trusted: gvc, SMT solvers. Assumed: `less` is a strict weak order and pure (the property quantifies over such orders); callbacks affect only caller state; int arithmetic does not overflow. PriorityQueue's map coupling: see evidence not_covered_clauses until its contracts are discharged.",
+         "4.5", CLAIMED["C06"][3])
+CLAIMED["C15"] = ("Deductive proof of a two-state generation-stability invariant on every Deque and Heap mutator (gen never decreases; unchanged gen implies unchanged representation; a size change advances gen) plus iterator contracts over a ghost snapshot: Next panics exactly when the generation moved, otherwise yields the next snapshot element, and reports exhaustion only after the whole snapshot; a ghost client shows any mutator leaves an outstanding iterator either at its snapshot or with a stale generation.",
+         "Trusted: gvc, SMT solvers. Assumed: single goroutine. Four genuine defects found by these obligations were repaired by fix: commits (known_findings.txt).",
+         "4.11", CLAIMED["C06"][3])
+
 NOT_APPLICABLE = {
  "C10": "stream.Pipe: every clause is quantified over goroutine interleavings and the runtime's choice among ready select arms; a sequential contract verifier has no model of several goroutines sharing channels (DESIGN.md section 6).",
  "C11": "stream.Batch: three goroutines, a timer and an unbuffered hand-over; partition, max-wait and 'Close always returns' are schedule and liveness statements, not expressible as per-call contracts (DESIGN.md section 6).",
